@@ -44,7 +44,7 @@ class DPT2ByteUnsigned(DPTNumeric):
             # the nearest representable value - not the next lower one
             knx_value = round(int(value) / cls.resolution)
             return DPTArray((knx_value >> 8, knx_value & 0xFF))
-        except (ValueError, OverflowError) as err:
+        except (ValueError, TypeError, OverflowError) as err:
             raise ConversionError(
                 f"Could not serialize {cls.dpt_name()}", value=value
             ) from err
